@@ -24,3 +24,55 @@ CHECKS["C20"] = {
     ],
     "deadline": {"quick": 120, "thorough": 1500},
 }
+
+CHECKS["C04"] = {
+    "level": "model_checking",
+    "assumptions": ["sm3ref (validated against the GB/T 32905 appendix vectors at start) is the digest oracle",
+                    "stream content is position-determined, so a state is a function of the live object's memory; messages longer than L bytes are not explored"],
+    "parts": [
+        {"name": "sm3-history", "pkg": "sm3", "run": "TestVX_C04", "public_files": ["sm3/C04_pub_test.go"],
+         "shards": {"quick": 2, "thorough": 4}},
+    ],
+    "deadline": {"quick": 200, "thorough": 3000},
+}
+
+CHECKS["C16"] = {
+    "level": "exploration",
+    "assumptions": ["math/big is the integer oracle", "binary operations are enumerated over the stated limb alphabets, not over all 2^512 pairs",
+                    "Invert(x)=x^(m-2) for all x follows from the chain exponent check plus Mul/Square correctness on the alphabet"],
+    "prepare": {"": [["python3", "{verif}/tools/prep_addchain.py", "{repo}"]]},
+    "parts": [
+        {"name": "field", "pkg": "sm2/internal/fiat", "run": "TestVX_C16", "public_files": ["sm2/internal/fiat/C16_pub_test.go"],
+         "shards": {"quick": 8, "thorough": 16}},
+        {"name": "chain", "pkg": "sm2/internal/fiat", "run": "TestVX_C16_Chain", "public_files": ["sm2/internal/fiat/C16_pub_test.go"]},
+    ],
+    "deadline": {"quick": 120, "thorough": 1500},
+}
+
+SM2I = "sm2/internal/"
+CHECKS["C14"] = {
+    "level": "exploration",
+    "assumptions": ["sm2ref (math/big, Jacobian validated against affine arithmetic and elliptic.CurveParams) is the oracle",
+                    "scalars are enumerated over the stated window/nibble/digit alphabets, not all 2^256 values"],
+    "parts": [
+        {"name": "mul-public", "pkg": "sm2/internal", "run": "TestVX_C14",
+         "public_files": [SM2I + "common_pub_test.go", SM2I + "C14_pub_test.go"], "shards": {"quick": 16, "thorough": 16}},
+        {"name": "mul-schemes", "pkg": "sm2/internal", "run": "TestVX_C14_Schemes", "kind": "internal",
+         "files": [SM2I + "common_int_test.go", SM2I + "C14_int_test.go"], "shards": {"quick": 16, "thorough": 16}},
+    ],
+    "deadline": {"quick": 150, "thorough": 1800},
+}
+
+CHECKS["C15"] = {
+    "level": "exploration",
+    "assumptions": ["affine group law in math/big is the oracle", "projective scalings l in {1,2,p-1,seeded}; point alphabet of 11 points"],
+    "parts": [
+        {"name": "point-arith", "pkg": "sm2/internal", "run": "TestVX_C15_Arith", "kind": "internal",
+         "files": [SM2I + "common_int_test.go", SM2I + "C15_int_test.go"], "shards": 8},
+        {"name": "point-encoding", "pkg": "sm2/internal", "run": "TestVX_C15_Encoding",
+         "public_files": [SM2I + "common_pub_test.go", SM2I + "C14_pub_test.go", SM2I + "C15_pub_test.go"], "shards": 4},
+        {"name": "point-arith-public", "pkg": "sm2/internal", "run": "TestVX_C15_PublicArith",
+         "public_files": [SM2I + "common_pub_test.go", SM2I + "C14_pub_test.go", SM2I + "C15_pub_test.go"], "shards": 8},
+    ],
+    "deadline": {"quick": 150, "thorough": 1200},
+}
